@@ -273,6 +273,14 @@ func CmdCheck(args []string) int {
 	nObl, nDis := countObls(oc)
 	fmt.Printf("property %s tier=%s: %d obligations, %d discharged, %d violations, %d known findings, %.1fs (load %.1f, generate %.1f, solve %.1f)\n",
 		id, *tier, nObl, nDis, violations, len(knownLines), oc.WallS, oc.LoadS, oc.GenS, oc.SolveS)
+	// the slowest obligations, to watch the margin to the solver timeout (stderr: not part of the verdict)
+	rs := append([]*Result(nil), oc.Results...)
+	sort.Slice(rs, func(i, j int) bool { return rs[i].Seconds > rs[j].Seconds })
+	for i := 0; i < len(rs) && i < 3; i++ {
+		if rs[i].Seconds >= 2 {
+			fmt.Fprintf(os.Stderr, "slow: %.1fs %s [%s]\n", rs[i].Seconds, rs[i].Obl.Name, rs[i].Solver)
+		}
+	}
 	if violations > 0 {
 		return 1
 	}
